@@ -124,37 +124,9 @@ func rtBuild(c Sx, caching bool) *rtRouter {
 	}
 	register(func() {
 	for i, d := range xs[2].Lst() {
-		i := i
-		name := fmt.Sprintf("r%d", i)
-		rr.byName[name] = i
-		var h rux.HandlerFunc
-		if !d.List[2].Bool() {
-			h = func(c *rux.Context) {
-				rtCur.who = fmt.Sprint(i)
-				rtCur.params = paramsSx(c.Params)
-				c.SetStatus(200)
-			}
-		}
-		ok := func() (ok bool) {
-			defer func() {
-				if e := recover(); e != nil {
-					ok = false
-				}
-			}()
-			ms := d.List[0].Strs()
-			var rt *rux.Route
-			if len(ms) == 1 && i%3 == 1 && h != nil && rpShortcut(rr.r, ms[0]) != nil {
-				// the per-method shortcut, named afterwards: the same registration
-				rt = rpShortcut(rr.r, ms[0])(d.List[1].Str(), h)
-				rt.NamedTo(name, rr.r)
-			} else {
-				rt = rr.r.AddNamed(name, d.List[1].Str(), h, ms...)
-			}
-			// the method names the route is stored under
-			rr.meths = append(rr.meths, L(A("meths"), I(i), SL(rt.Methods())))
-			return true
-		}()
+		ok, ms := rr.addDef(i, d)
 		if ok {
+			rr.meths = append(rr.meths, ms)
 			rr.regs = append(rr.regs, A("ok"))
 		} else {
 			rr.regs = append(rr.regs, A("panic"))
@@ -179,6 +151,36 @@ func rtBuild(c Sx, caching bool) *rtRouter {
 		}
 	}
 	return rr
+}
+
+// addDef registers definition d ((methods) 'path nil-handler?) as route number i
+func (rr *rtRouter) addDef(i int, d Sx) (ok bool, meths Sx) {
+	name := fmt.Sprintf("r%d", i)
+	rr.byName[name] = i
+	var h rux.HandlerFunc
+	if !d.List[2].Bool() {
+		h = func(c *rux.Context) {
+			rtCur.who = fmt.Sprint(i)
+			rtCur.params = paramsSx(c.Params)
+			c.SetStatus(200)
+		}
+	}
+	defer func() {
+		if e := recover(); e != nil {
+			ok = false
+		}
+	}()
+	ms := d.List[0].Strs()
+	var rt *rux.Route
+	if len(ms) == 1 && i%3 == 1 && h != nil && rpShortcut(rr.r, ms[0]) != nil {
+		// the per-method shortcut, named afterwards: the same registration
+		rt = rpShortcut(rr.r, ms[0])(d.List[1].Str(), h)
+		rt.NamedTo(name, rr.r)
+	} else {
+		rt = rr.r.AddNamed(name, d.List[1].Str(), h, ms...)
+	}
+	// the method names the route is stored under
+	return true, L(A("meths"), I(i), SL(rt.Methods()))
 }
 
 func (rr *rtRouter) match(m, p string) (res Sx) {
@@ -238,7 +240,19 @@ func rtExec(c Sx) Sx {
 	main := rtBuild(c, true)
 	twin := rtBuild(c, false)
 	var qs []Sx
+	next := len(xs[2].Lst())
 	for k, q := range xs[3].Lst() {
+		if q.Head() == "a" { // a route registered on the running router, between two lookups
+			ok, _ := main.addDef(next, LS(q.List[1:]))
+			twin.addDef(next, LS(q.List[1:]))
+			next++
+			res := "panic"
+			if ok {
+				res = "ok"
+			}
+			qs = append(qs, L(A("a"), A(res)))
+			continue
+		}
 		m, p := q.List[1].Str(), q.List[2].Str()
 		// the read-only inspection API is used between lookups: it must not disturb the tables
 		switch k % 4 {
